@@ -18,6 +18,7 @@ _AnyNumber = Union[int, decimal.Decimal, 'NumberExpr']
 
 
 def _add_expr_from_value(value: decimal.Decimal) -> NumberAddExpr:
+    value = decimal.Decimal(value)  # exact; a plain int is accepted as well (docs: `expr.value = 8`)
     number_token = number.Number.from_value(value.copy_abs())
     token_store = base.TokenStore.from_tokens([number_token])
     atom_expr: NumberAtomExpr
